@@ -2,8 +2,9 @@ import Astria.Mempool.Basic
 /-
   "Never silently lost": every id the mempool ever accepted is still tracked, or has a removal
   reason in the removal cache, or was acknowledged by the caller (`remove_from_removal_cache`),
-  or was pushed out of the removal cache by its size bound, or — the defect of the code as it
-  is — was un-tracked by a failed promotion/demotion inside `run_maintenance` (`dropped`).
+  or was pushed out of the removal cache by its size bound, or — the defect F13 of the pinned
+  code, repaired by /repo commit 8c2d14f (`cfg.reportFailedMoves`) — was un-tracked by a failed
+  promotion/demotion inside `run_maintenance` (`dropped`).
 -/
 namespace Astria.Mempool
 
@@ -16,7 +17,7 @@ def EvOk (s : State) : Prop :=
   0 < s.cfg.cacheMax ∧ (s.evicted = [] ∨ s.cacheQ.length = s.cfg.cacheMax)
 
 /-- Nothing that was accounted for stops being accounted for; the accepted list is unchanged;
-    evictions happen only at the bound; with the proposed fix nothing is dropped. -/
+    evictions happen only at the bound; with the repair (`reportFailedMoves`) nothing is dropped. -/
 def AccLe (s s' : State) : Prop :=
   s'.accepted = s.accepted ∧ s'.cfg = s.cfg ∧ (∀ i, Acc s i → Acc s' i) ∧ (EvOk s → EvOk s')
     ∧ (s.cfg.reportFailedMoves = true → s'.dropped = s.dropped)
